@@ -17,13 +17,13 @@ ASSUMPTIONS = ["a request re-written by the broker client after a reconnect (sam
                "a re-send after a lost or late acknowledgement is legitimate; duplicates in the log are then expected",
                "retry timers are observed at the injected reactor's callLater (calls made from afkak.producer)",
                "'the batch resolves' is observed at Producer._complete_batch_send (wrapped from the harness)"]
-REACH_MIN = {"retried_attempts": {"quick": 150, "thorough": 4000},
-             "mixed_outcome_attempts": {"quick": 40, "thorough": 1000},
-             "second_batches": {"quick": 200, "thorough": 6000},
-             "retry_timers": {"quick": 150, "thorough": 4000},
-             "batches_resolved": {"quick": 400, "thorough": 10000},
-             "leader_moves": {"quick": 60, "thorough": 1500},
-             "acks0_partial_failures": {"quick": 15, "thorough": 400}}
+REACH_MIN = {"retried_attempts": {"quick": 97, "thorough": 1640},
+             "mixed_outcome_attempts": {"quick": 40, "thorough": 676},
+             "second_batches": {"quick": 200, "thorough": 3381},
+             "retry_timers": {"quick": 150, "thorough": 2536},
+             "batches_resolved": {"quick": 400, "thorough": 6763},
+             "leader_moves": {"quick": 60, "thorough": 1014},
+             "acks0_partial_failures": {"quick": 15, "thorough": 253}}
 
 
 def cases(tier, seed):
